@@ -24,7 +24,7 @@ import z3
 from pyvc.engine import Contract
 from pyvc.loader import Unsupported
 from pyvc.tdesc import T, mk
-from pyvc.values import (VInt, VReal, VBool, VStr, VBytes, VTuple, NONE, VNoneT, VObj, VFunc, VCoro, VExc, PyRaise, VOpaque, VLazyOpt, VLazy, VClass)
+from pyvc.values import (VInt, VReal, VBool, VStr, VBytes, VTuple, NONE, VNoneT, VObj, VFunc, VCoro, VExc, PyRaise, VOpaque, VLazyOpt, VLazy, VClass, VList, VDict)
 from pyvc import urlmodel as U
 from contracts import client_proto
 from contracts.client_proto import GP, TPc, CT, FUT, RESP
@@ -159,6 +159,18 @@ def add_targets(E, spec, pid):
         "nauyaca.security.tls:create_client_context", result=T.make(lambda c, h: VOpaque("sslctx", c.fresh_int("sslctx"))), raises=["ValueError", "OSError"])
     E.use_assumption("GeminiClient objects are those the real __init__ produces for arbitrary constructor arguments (TOFUDatabase(...) and create_client_context by contract: C12/C20)")
 
+    ANY = "model:anycontainer"
+    M[("contains", ANY)] = lambda ctx, c, item: ctx.fresh_bool("in_earlier_state")
+    M[("bool", ANY)] = lambda ctx, c: ctx.fresh_bool("earlier_state_nonempty")
+    for meth in ("add", "append", "discard", "clear", "update", "pop", "remove"):
+        M[(ANY, meth)] = lambda ctx, c, a, k: NONE
+
+    def any_lookup(ctx, c, *a):
+        raise Unsupported("value read from a container that earlier calls on the same client may have filled (type unknown)")
+    M[("getitem", ANY)] = lambda ctx, c, key: any_lookup(ctx, c)
+    M[(ANY, "get")] = lambda ctx, c, a, k: any_lookup(ctx, c)
+    E.use_assumption("client objects: the state the real __init__ leaves, with every container it created filled arbitrarily (earlier calls on the same client)")
+
     def mk_client(ctx):
         from pyvc.values import Infeasible
         kwargs = {"timeout": VReal(z3.Real("self.timeout")), "max_redirects": VInt(z3.Int("self.max_redirects")),
@@ -172,6 +184,11 @@ def add_targets(E, spec, pid):
             cl = E.instantiate(ctx, None, VClass(CL), [], kwargs)
         except PyRaise:
             raise Infeasible()          # no client object: nothing to call
+        # the client may have been used before (C03/C11 quantify over histories): every mutable container that __init__ created
+        # (caches, sets of "already verified" peers, ...) holds arbitrary content - nothing may be concluded from it
+        for fname, v in list(ctx.heap[cl.oid].items()):
+            if isinstance(v, (VList, VDict)) and not ctx.items(v):
+                ctx.heap[cl.oid][fname] = ctx.alloc("model:anycontainer", {"field": VStr(fname)})
         ctx.ghost["tofu_mode"] = z3.Bool("tofu_enabled")
         ctx.ghost["g_verified"] = z3.BoolVal(False)
         ctx.ghost["connections"] = []
